@@ -103,6 +103,19 @@ def main():
             jobs.append((d, ex.submit(evaluate, d, checks, not a.no_confirm)))
         for d, f in jobs:
             r = f.result()
+            prev = {}
+            if (d / "result.json").exists():
+                try:
+                    prev = json.loads((d / "result.json").read_text())
+                except ValueError:
+                    prev = {}
+            if not r.get("confirm") and prev.get("confirm"):
+                r["confirm"] = prev["confirm"]          # keep the last confirmation (suite + demo) when run with --no-confirm
+            merged = dict(prev.get("checks", {}))
+            merged.update(r.get("checks", {}))
+            r["checks"] = merged
+            r["caught_by"] = sorted(c for c, v in merged.items() if v["rc"] == 1)
+            r["analysis_errors"] = sorted(c for c, v in merged.items() if v["rc"] == 2)
             (d / "result.json").write_text(json.dumps(r, indent=1) + "\n")
             c = r.get("confirm", {})
             print(f"{r['id']:10s} prop={r.get('property')} tests_ok={c.get('tests_ok')} demo={c.get('demo_with_patch_exit')}/{c.get('demo_without_patch_exit')} "
